@@ -521,6 +521,7 @@ def logic_unit(arg):
                     W=case.W, K=case.K, result='unsat (exact)', adds=res['adds'],
                     new_names=res['new_names']))
         elif st == 'notarget':
+            out['cases'] -= 1     # the rule adds nothing here: no obligation
             out['notarget'].append((rname, case.label))
         elif st == 'unknown':
             out['unknown'] += 1
